@@ -50,6 +50,53 @@ PROPS = {
         "level_note": "Trusted: Lean kernel; axioms propext, Classical.choice, Quot.sound; the hand model is tied to the Go code only by "
                       "differential testing (bounded); fmt/strings stdlib semantics as modelled; Nat.repr as decimal notation.",
     },
+    "C06": {
+        "gen": [],
+        "rule": "cases = per wire type (SMB_STRING x5 formats, OEM_STRING, SMB_DATE, FILETIME, RANGE32/64, SMB_NMPIPE_STATUS, SMB_RESUME_KEY, "
+                "SMB_DIRECTORY_INFORMATION, SMB_FILE_ATTRIBUTES, AndX, Parameters, Data, Version): enc = Marshal of a value (bytes + receiver after the call); "
+                "rt = Unmarshal(Marshal(v) || suffix) into a fresh receiver (fields, n, len); dec = Unmarshal of raw bytes (every prefix of valid encodings, "
+                "corruptions, every format byte, random bytes). Values: string lengths 0..300 (thorough 0..1100) and 4096/65533/65535/65536 in every format, "
+                "packed dates and pipe-status words on a grid (thorough: all 65536 each), every WordCount 0..255, data lengths around 255/256/65535, "
+                "out-of-domain values (embedded NUL, counts out of step, long names); buffers have cap == len; "
+                "distinct = distinct input line; non-trivial = implementation output is a non-empty value",
+        "assumptions": ["encoding/binary Put/Uint16/32, append, copy and slice-bounds checks behave as modelled",
+                        "Unmarshal is run on a fresh receiver (every decoder overwrites all fields on success)",
+                        "integer endianness is taken from the code (SMB_FILE_ATTRIBUTES, AndXOffset, parameter words big-endian): conformance is C05"],
+        "trusted": [],
+        "technique": "Lean 4 proof (list induction, bit-extensionality for the packed words) about hand models of the 14 Marshal/Unmarshal pairs; "
+                     "models tied to the Go code by differential correspondence; round-trip oracle on the same inputs",
+        "level_text": "For each of the 14 wire types the theorem <Type>.rt is proved in Lean for all values of an explicit decidable domain and all "
+                      "trailing suffixes: Marshal succeeds, emits wireSize bytes, and Unmarshal(bytes ++ suffix) returns the same field values and exactly "
+                      "wireSize (SMB_RESUME_KEY / SMB_DIRECTORY_INFORMATION also from any receiver state, modulo the space padding Marshal applies: rt_norm). "
+                      "smb_date_all_words and pipe_status_all_words cover all 65536 words by bit-extensionality. SMB_NMPIPE_STATUS is proved only for the empty "
+                      "suffix (rt_partial) with the negation at a witness (finding nmpipe_trailing: the suite pins the len != 2 test). The models are of the code with "
+                      "fixes/C06-*.diff applied and are tied to it by running both on the same generated inputs on every run.",
+        "level_note": "Trusted: Lean kernel; axioms propext, Classical.choice, Quot.sound; the hand models are tied to the Go code only by differential "
+                      "testing (bounded); encoding/binary and slice semantics as modelled. Wire endianness is not judged here (C05).",
+    },
+    "C11": {
+        "gen": [],
+        "rule": "cases = real loopback TCP pairs (net.Listen 127.0.0.1:0). send: the real Send writes to a peer that reads to EOF (payload lengths "
+                "0,1,..,0xFFFF,0x10000,0x1FFFF,0x20000,0x2FFFF,0x30000 and random); recv: a scripted peer writes RFC 1002 frames in a random segmentation "
+                "(1-byte writes, pauses, MSS-sized and 64 KiB chunks) and closes after EVERY byte offset of short frame sequences and after chosen offsets of "
+                "0xFFFF/0x10000/0x1FFFF-byte frames, the real Receive is called until it fails; malformed streams (other message types, reserved flag bits, "
+                "short bodies, garbage); e2e: transport A Sends payload lists, a relay re-segments at random, transport B Receives; "
+                "distinct = distinct input line; non-trivial = implementation output is a non-empty value",
+        "assumptions": ["io.ReadFull returns exactly len(buf) bytes or an error (its documented contract)",
+                        "conn.Write(p) hands all of p to the stream or returns an error",
+                        "loopback TCP delivers the written bytes in order and reports the peer's close as EOF"],
+        "trusted": ["io.ReadFull / net.Conn semantics (contract only)"],
+        "technique": "Lean 4 proof (induction over the frame list, arithmetic of the 17-bit length) about a hand model of Send/Receive over a byte stream; "
+                     "model tied to the Go code by differential correspondence through real loopback sockets; RFC 1002 oracle on the same inputs",
+        "level_text": "Proved in Lean for all inputs about a hand model of NBTTransport.Send/Receive (with fixes/C11-17bit-length.diff): frame_roundtrip (every list "
+                      "of payloads of 0..0x1FFFF bytes is received as exactly that list), send_receive, oversize_refused (> 0x1FFFF is an error, nothing written), "
+                      "cut_is_error and cut_yields_prefix (a stream ending at any offset yields only whole sent messages, then an error), receive_total, "
+                      "frame_is_rfc1002, and readFullSeg_contract / segmentation_independent (the ReadFull loop over arbitrary TCP read sizes meets its contract). "
+                      "The model is tied to the code on every run through real loopback connections with scripted segmentations and cuts after every byte offset.",
+        "level_note": "PARTIAL for real TCP behaviour: only the byte-stream abstraction is modelled (in-order delivery, close = end of stream); resets, "
+                      "timeouts, partial writes and concurrent use of one transport are not. Trusted: Lean kernel; axioms propext, Classical.choice, Quot.sound; "
+                      "io.ReadFull / net.Conn contracts; the hand model is tied to the Go code only by differential testing (bounded).",
+    },
 }
 
 NOT_APPLICABLE = {}
